@@ -7,11 +7,13 @@
 import re
 from collections import namedtuple
 
-from ural.patterns import DOMAIN_TEMPLATE
+from ural.patterns import DOMAIN_TEMPLATE, ASCII
 from ural.get_hostname import get_hostname
 from ural.utils import SplitResult, safe_urlsplit, pathsplit
 
-TWITTER_DOMAINS_RE = re.compile(r"(?:^|\.)(?:twitter|x)\.com\s*$", re.I)
+# NOTE: hostnames are matched caselessly over ascii letters only (with re.I alone,
+# "tw\u0131tter.com", with a dotless i, is read as "twitter.com")
+TWITTER_DOMAINS_RE = re.compile(r"(?:^|\.)(?:twitter|x)\.com\s*$", re.I | ASCII)
 TWITTER_URL_RE = re.compile(DOMAIN_TEMPLATE % r"(?:[^.]+\.)*(?:twitter|x)\.com", re.I)
 TWITTER_FRAGMENT_ROUTING_RE = re.compile(r"^!/?")
 TWITTER_SCREEN_NAME_BLACKLIST = {
